@@ -908,6 +908,10 @@ fn sc_c15(seed: u64, thorough: bool) -> Vec<Scenario> {
 /// unrelated tuples whose 32-bit cookies are equal (birthday bound ~2^16 tuples). The table is
 /// keyed by the cookie, so the second flow rides on the first one's entry.
 fn sc_c08(seed: u64) -> Vec<Scenario> {
+    sc_collision(seed, false)
+}
+
+fn sc_collision(seed: u64, validated_pair: bool) -> Vec<Scenario> {
     use std::collections::HashMap;
     let key = [0u64, 0u64];
     let mut rng = Rng::new(derive(seed, "directed-c08", 0));
@@ -933,6 +937,27 @@ fn sc_c08(seed: u64) -> Vec<Scenario> {
     let fa = Flow { src: IpAddr::V4(Ipv4Addr::from(a.0)), dst, sport: a.1, dport: 80 };
     let fb = Flow { src: IpAddr::V4(Ipv4Addr::from(b.0)), dst, sport: b.1, dport: 80 };
     let ck = fa.cookie(&key);
+    if validated_pair {
+        // both flows present their (equal) cookies: each is a validated flow of its own, and its
+        // later segments - whose acknowledgement numbers have moved on - are data of a validated flow
+        let req = b"GET / HTTP/1.1\r\nHost: a\r\n\r\n";
+        let steps = vec![
+            Step::Frame(fa.seg(100, 0, F_SYN, &[])),
+            Step::Frame(fb.seg(200, 0, F_SYN, &[])),
+            Step::Frame(fa.seg(101, ck.wrapping_add(1), F_PSH | F_ACK, req)),
+            Step::Frame(fb.seg(201, ck.wrapping_add(1), F_PSH | F_ACK, req)),
+            Step::Frame(fb.seg(201 + req.len() as u32, ck.wrapping_add(400), F_PSH | F_ACK, req)),
+            Step::Frame(fa.seg(101 + req.len() as u32, ck.wrapping_add(400), F_PSH | F_ACK, req)),
+            Step::Frame(fb.seg(201 + 2 * req.len() as u32, ck.wrapping_add(800), F_FIN | F_ACK, &[])),
+        ];
+        return vec![Scenario {
+            name: "cookie-collision-both-validated".into(),
+            cfg: cfg(Build::Release, LoggerKind::None, 0, key),
+            start_ms: START,
+            steps,
+            samples: 0,
+        }];
+    }
     let steps = vec![
         Step::Frame(fa.seg(100, 0, F_SYN, &[])),
         Step::Frame(fb.seg(200, 0, F_SYN, &[])),
@@ -1143,11 +1168,11 @@ fn sc_scale(seed: u64, thorough: bool, which: &str) -> Vec<Scenario> {
             if thorough {
                 break;
             }
-        } else if which == "mass-validated" {
+        } else if which == "mass-validated" || which == "mass-validated-logged" {
             // more validated connections in one life of the connection table than any bound one
             // would plausibly put on it (2^16, 2^18, thorough: 2^20): connections opened before
             // the crowd and after it behave like any other
-            let n: u32 = std::env::var("VERIF_MASS").ok().and_then(|s| s.parse().ok()).unwrap_or(if thorough { 1_100_000 } else { 270_000 });
+            let n: u32 = std::env::var("VERIF_MASS").ok().and_then(|s| s.parse().ok()).unwrap_or(if thorough { 2_200_000 } else { 270_000 });
             let mk = |sport: u16, dport: u16| if v6 { Flow::v6(sport, dport) } else { Flow::v4(sport, dport) };
             let mut steps = Vec::new();
             let req = b"GET /index.html HTTP/1.1\r\nHost: example.test\r\n\r\n";
@@ -1160,7 +1185,12 @@ fn sc_scale(seed: u64, thorough: bool, which: &str) -> Vec<Scenario> {
             steps.push(Step::Frame(fb.seg(701, cb.wrapping_add(1), F_PSH | F_ACK, req)));
             let dports = [21u16, 22, 23, 25, 53, 80, 110, 111, 135, 139, 143, 443, 445, 993, 3306, 3389, 5900, 8000, 8080, 8443];
             for i in 0..n {
-                let f = mk(1024 + (i % 64_000) as u16, dports[(i / 64_000) as usize % dports.len()]);
+                let mut f = mk(1024 + (i % 64_000) as u16, dports[(i / 64_000) as usize % dports.len()]);
+                // 64 000 ports x 20 services per source address
+                let block = (i / 1_280_000) as u16;
+                if block > 0 {
+                    f.src = if v6 { IpAddr::V6(Ipv6Addr::new(0x2001, 0xdb8, 0xffff, 0, 0, 0, 0, 1 + block)) } else { IpAddr::V4(Ipv4Addr::new(192, 0, 2, 1 + block as u8)) };
+                }
                 let c = f.cookie(&key);
                 steps.push(Step::Frame(f.seg(9, c.wrapping_add(1), F_PSH | F_ACK, b"\n")));
             }
@@ -1173,8 +1203,8 @@ fn sc_scale(seed: u64, thorough: bool, which: &str) -> Vec<Scenario> {
             steps.push(Step::Frame(fc.seg(901, cc.wrapping_add(1), F_PSH | F_ACK, &req[..10])));
             steps.push(Step::Frame(fc.seg(911, cc.wrapping_add(1), F_PSH | F_ACK, &req[10..])));
             out.push(Scenario {
-                name: format!("mass-validated-{}-{}-{}", n, if v6 { "v6" } else { "v4" }, build.as_str()),
-                cfg: cfg(build, LoggerKind::None, 0, key),
+                name: format!("{}-{}-{}-{}", which, n, if v6 { "v6" } else { "v4" }, build.as_str()),
+                cfg: cfg(build, if which == "mass-validated-logged" { LoggerKind::Logfmt } else { LoggerKind::None }, 0, key),
                 start_ms: START,
                 steps,
                 samples: 0,
@@ -1230,7 +1260,11 @@ pub fn scenarios(prop: &str, tier: &str, seed: u64) -> Vec<Scenario> {
             v.extend(sc_scale(seed, thorough, "flood"));
             v
         }
-        "C07" => sc_flags(seed, thorough),
+        "C07" => {
+            let mut v = sc_flags(seed, thorough);
+            v.extend(sc_collision(seed, true));
+            v
+        }
         "C03" => {
             let mut v = sc_flags(seed, false);
             v.extend(sc_c15(seed, false));
@@ -1276,6 +1310,10 @@ pub fn scenarios(prop: &str, tier: &str, seed: u64) -> Vec<Scenario> {
                 s.cfg.logger = LoggerKind::Logfmt;
             }
             v.extend(w);
+            if thorough {
+                // the account stays balanced however many connections the table holds
+                v.extend(sc_scale(seed, true, "mass-validated-logged"));
+            }
             v
         }
         _ => Vec::new(),
